@@ -240,6 +240,32 @@ def rule4_timed(ctx, v):
     ctx.floor('C13.4', 7)
 
 
+def rule5_finisher(ctx, fl):
+    ctx.doc('C13.5', 'sibling agreement of the two exit callbacks myth_entry_point_1/_2: on the detached edge every path '
+            'passes exactly one release of the finished thread\'s record, on the joinable edge none (the joiner reaps)')
+    v = ctx.view(NATIVE, roots=['myth_entry_point_1', 'myth_entry_point_2'],
+                 stops=(DESC_FREE, 'free_myth_thread_struct_stack') + lib.SPIN_STOPS, flavour=fl)
+    for cbn in ('myth_entry_point_1', 'myth_entry_point_2'):
+        c = ctx.need_fn(v, cbn)
+        dl = [l for l in c.loads_of(TH + 'detached') if same_value(c, c.ap(l.ops[0]).root, 'a1')]
+        frees = [x for x in call_sites(c, DESC_FREE) if same_value(c, x.args[1], 'a1')]
+        ctx.ob('C13.5', cbn + ': tests detached', len(dl) == 1, 'the callback decides on the detached flag', loc=c.loc)
+        for l in dl:
+            for cond, pol in truthy_conds(c, l.id):
+                for br, t, f_ in c.cond_edges(cond):
+                    det, join = (t, f_) if pol else (f_, t)
+                    r = c.reachable_from(lib.first_inst(c, det), blocked=frees, include_start=True)
+                    ctx.ob('C13.5', cbn + ': detached => record released', not [x for x in r if x.op == 'ret'],
+                           'a detached thread\'s record is reaped by its finisher on every path (both exit callbacks)',
+                           loc=br.loc)
+                    r2 = c.reachable_from(lib.first_inst(c, join), include_start=True)
+                    ctx.ob('C13.5', cbn + ': joinable => record kept', not [x for x in r2 if x in frees],
+                           'a joinable thread\'s record is left for the joiner', loc=br.loc)
+        again = [(a, b) for a in frees for b in frees if b in c.reachable_from(a)]
+        ctx.ob('C13.5', cbn + ': at most one release', not again, 'no double release', loc=c.loc)
+    ctx.floor('C13.5', 8)
+
+
 def run(ctx):
     for fl in flavours(ctx):
         ctx.unit = fl
@@ -251,6 +277,7 @@ def run(ctx):
         rule2_detachstate(ctx, fl)
         rule3_recycle(ctx, fl)
         rule4_timed(ctx, v)
+        rule5_finisher(ctx, fl)
 
 
 SCHED = 'src/myth_sched_func.h'
@@ -274,6 +301,11 @@ MUTANTS = [
      'edits': [(SCHED, "  void * v_ret = myth_freelist_pop(&env->freelist_desc);\n  if (v_ret){\n    return v_ret;\n  } else {", "  void * v_ret = 0;\n  if (v_ret){\n    return v_ret;\n  } else {")]},
     {'name': 'record released to the stack list', 'expect': 'C13.3',
      'edits': [(SCHED, "  myth_freelist_push(&e->freelist_desc,(void*)th);", "  myth_freelist_push(&e->freelist_stack,(void*)th);")]},
+    {'name': 'scheduler-bound exit callback forgets to reap a detached thread (seed C13/m2)', 'expect': 'C13.5',
+     'edits': [(SCHED, "    myth_spin_unlock_body(&this_thread->lock);\n    free_myth_thread_struct_desc(env,this_thread);\n  }\n  else{\n#if QUICK_CHECK_ON_JOIN\n    this_thread->status=MYTH_STATUS_FREE_READY;",
+                "    myth_spin_unlock_body(&this_thread->lock);\n  }\n  else{\n#if QUICK_CHECK_ON_JOIN\n    this_thread->status=MYTH_STATUS_FREE_READY;")]},
+    {'name': 'detach fast path falls through and reaps twice (seed C13/m1)', 'expect': 'C13.1',
+     'edits': [(SCHED, "    free_myth_thread_struct_desc(myth_get_current_env(),th);\n    return 0;\n  }\n  //Obtain lock", "    free_myth_thread_struct_desc(myth_get_current_env(),th);\n  }\n  //Obtain lock")]},
     {'name': 'timedjoin gives up before reading the clock', 'expect': 'C13.4',
      'edits': [(SCHED, "      if (myth_timespec_gt(tp, abstime)) return EBUSY;\n      if (myth_tryjoin_body(th, result) == 0) {", "      if (!myth_timespec_gt(tp, abstime)) return EBUSY;\n      if (myth_tryjoin_body(th, result) == 0) {")]},
     {'name': 'timedjoin reports success without reaping', 'expect': 'C13.4',
